@@ -81,7 +81,9 @@ def main():
             o = build_all([step[1]])
             try:
                 ffcx.compiler.compile_ufl_objects(o, options=ffcx.options.get_options(dict(step[2] or {})), namespace="other")
-            except Exception as e:  # a failed earlier compilation is also a history
+            except BaseException as e:  # noqa: BLE001 - a failed earlier compilation is also a history (UFL raises BaseException subclasses)
+                if isinstance(e, (KeyboardInterrupt, SystemExit)):
+                    raise
                 out.setdefault("step_errors", []).append(f"{type(e).__name__}: {e}"[:200])
         elif step[0] == "options":
             ffcx.options.get_options(dict(step[1]))
@@ -92,7 +94,9 @@ def main():
         try:
             code, suffixes = ffcx.compiler.compile_ufl_objects(target_objs, options=opts, namespace=job.get("namespace", "ns"))
             out["code"] = list(code)
-        except Exception as e:
+        except BaseException as e:  # noqa: BLE001 - UFL raises BaseException subclasses (ArityMismatch, ComplexComparisonError)
+            if isinstance(e, (KeyboardInterrupt, SystemExit)):
+                raise
             out["error"] = f"{type(e).__name__}: {e}"[:300]
     else:  # names: what the JIT would call the module and its objects, without compiling
         import ffcx.codegeneration.jit as J
@@ -113,7 +117,9 @@ def main():
             if job.get("with_code"):
                 code, _ = ffcx.compiler.compile_ufl_objects(target_objs, options=opts, namespace=module_name)
                 out["code"] = list(code)
-        except Exception as e:
+        except BaseException as e:  # noqa: BLE001 - UFL raises BaseException subclasses (ArityMismatch, ComplexComparisonError)
+            if isinstance(e, (KeyboardInterrupt, SystemExit)):
+                raise
             out["error"] = f"{type(e).__name__}: {e}"[:300]
     open(sys.argv[2], "w").write(json.dumps(out))
 
